@@ -17,7 +17,7 @@ from core import Stream, hexs, unhex
 
 ID = "C04"
 DESIGN_REF = "DESIGN.md section 5, C04"
-LEAN_TARGETS = ["PV.C04.Thm", "PV.C04.IndentInv", "PV.C04.ProgRules"]
+LEAN_TARGETS = ["PV.C04.Thm", "PV.C04.NumComplete", "PV.C04.IndentInv", "PV.C04.ProgRules"]
 DRIVER = "drv_c04"
 HARNESS = {"bin": "pvh_c04", "features": "default"}
 THEOREMS = [
@@ -53,6 +53,18 @@ THEOREMS = [
     "PV.C04.acceptsNumber_sound",
     "PV.C04.malformed_number_rejected",
     "PV.C04.lexer_float_before_else",
+    # --- number lexer COMPLETE for Python's numeric grammar (PV.C04.NumComplete) ---
+    "PV.C04.usDigits_radixRun",
+    "PV.C04.lexRest_vs_number",
+    "PV.C04.acceptsNumber_complete",
+    "PV.C04.acceptsNumber_eq_isNumber",
+    "PV.C04.lexRest_error_not_literal",
+    "PV.C04.lexRest_longest",
+    "PV.C04.lexRest_complete",
+    "PV.C04.lexRest_total",
+    "PV.C04.lexRest_error_iff",
+    "PV.C04.lexRest_no_fallback",
+    "PV.C04.number_suffix",
     "PV.C04.bareStar_iff",
     "PV.C04.checkSig_none_iff",
     "PV.C04.checkSig_kind",
@@ -157,9 +169,14 @@ PARTIAL = [
     "through the parser's own item loops (parseTypedParams / parseParams without validation, TypedReach / LamReach / "
     "ArgsReach) — token-level only for lists printed from items (dup_param_items); error kind and offset are not part "
     "of these theorems (the reference parser has no error values); lexer-level rules are the lex_rejects family, not redone",
-    "number lexer: proved 'whatever is taken as one numeric token is a Python numeric literal' (lexRest_sound, hence "
-    "malformed_number_rejected); the converse (every Python literal is taken whole) is not proved, only sampled "
-    "exhaustively to length 5 and validated against CPython; one shape below Python is witnessed (1.else, C01's finding)",
+    "number lexer: both inclusions are theorems for texts of every length (lexRest_sound; PV.C04.NumComplete: "
+    "acceptsNumber_eq_isNumber with no exclusion, lexRest_longest / lexRest_complete = the token is THE longest literal "
+    "at the start of the text, lexRest_error_iff = the lexer fails on exactly the shapes numMalformed). What stays "
+    "outside: numMalformed is phrased through the model's own digit scanner radixRun (radix prefix without a digit; "
+    "'digits . _'; leading zero + nonzero digit not followed by '.', exponent or 'j'), not through the grammar; on those "
+    "shapes the lexer reports an error instead of the shorter literal Python's tokenizer would also not accept "
+    "(lexRest_no_fallback: 09, 1._, 0x) — that CPython rejects the same texts is checked by the oracle, not proved; the "
+    "lexer-level glue (where lex_number is entered, what follows the token) is the numParse correspondence",
     "string / f-string scanners: lex_string is characterised for single-quoted literals (lexStringBody_closed_iff), "
     "triple-quoted ones only by correspondence; parse_fstring / parse_formatted_value / parse_spec are modelled and tied "
     "by exhaustive correspondence (all bodies of <=6 symbols) with one theorem (fstr_leading_equals_rejected: a field "
@@ -194,7 +211,8 @@ LEVEL_TEXT = ("Machine-checked Lean 4 theorems, for inputs of every size, about 
               "length a dedent to an unknown level, a missing indent after an opener (also at end of file), an unexpected "
               "indent and a tab/space inconsistency are rejected with the stated kind and offset, and every rejection has "
               "one of these reasons; the "
-              "number lexer never takes a non-literal as one numeric token. The models are tied to the Rust code on every "
+              "number lexer takes a text as one numeric token iff it is a numeric literal of the Language Reference, always "
+              "takes the longest literal (maximal munch) and fails on exactly three malformed shapes. The models are tied to the Rust code on every "
               "run by exhaustive small-scope correspondence (quick/thorough: parameter lists <=4/5, argument lists <=4/5, "
               "bracket words <=5/7, indentation scripts <=3-4 lines, numerals <=4/6, strings <=6/8, f-string bodies "
               "<=5/7) at every syntactic site, and the "
